@@ -231,6 +231,39 @@ func discMeshes() map[string]*model3d.Mesh {
 	return out
 }
 
+// The catalogue is what makes the Floater scenarios non-vacuous: its discs must have the interior they are
+// meant to have (a fan that does not close exactly has none). Checked once at start-up; a mismatch is a
+// harness error, not a verdict about the library.
+func init() {
+	want := map[string][2]int{"fan7": {8, 1}, "grid3x3": {16, 4}, "strip5": {12, 0}, "single-triangle": {3, 0}, "stellated-strip3": {14, 6}}
+	for name, m := range discMeshes() {
+		w, ok := want[name]
+		if !ok {
+			continue
+		}
+		edges := map[[2]model3d.Coord3D]int{}
+		m.Iterate(func(t *model3d.Triangle) {
+			for i := 0; i < 3; i++ {
+				a, b := t[i], t[(i+1)%3]
+				if x, y := a.Array(), b.Array(); y[0] < x[0] || (y[0] == x[0] && (y[1] < x[1] || (y[1] == x[1] && y[2] < x[2]))) {
+					a, b = b, a
+				}
+				edges[[2]model3d.Coord3D{a, b}]++
+			}
+		})
+		onBoundary := map[model3d.Coord3D]bool{}
+		for e, n := range edges {
+			if n == 1 {
+				onBoundary[e[0]], onBoundary[e[1]] = true, true
+			}
+		}
+		nv := len(m.VertexSlice())
+		if nv != w[0] || nv-len(onBoundary) != w[1] {
+			panic(fmt.Sprintf("harness: catalogue disc %s has %d vertices, %d interior; expected %d and %d", name, nv, nv-len(onBoundary), w[0], w[1]))
+		}
+	}
+}
+
 func uvArea(a, b, c model2d.Coord) float64 {
 	return ((b.X-a.X)*(c.Y-a.Y) - (b.Y-a.Y)*(c.X-a.X)) / 2
 }
